@@ -93,19 +93,23 @@ def scenarios(tier):
     return sc
 
 
-def boundary_scenarios():
+def boundary_scenarios(wide=False):
     """205 steps, activity (non-empty default programs and therefore all interesting deviations) only
     around steps 0-2, 98-102 and 198-202."""
     sc = {}
     for name, spec in (("b205:3sessions", [(99, True, True), (101, True, False), (5, True, True)]),
                        ("b205:1session", [(205, True, True)])):
+        name = name + (":wide" if wide else "")
         pa = [0] * 205
         pb = [0] * 205
-        for t in (0, 1, 98, 99, 100, 101, 102, 198, 199, 200, 201, 202):
+        act = (0, 1, 98, 99, 100, 101, 102, 198, 199, 200, 201, 202)
+        if wide:
+            act = tuple(range(0, 4)) + tuple(range(95, 106)) + tuple(range(195, 205))
+        for t in act:
             pa[t] = [1, 3, 1, 5][t % 4]
             pb[t] = [2, 4, 2, 2][t % 4]
         sc[name] = mk(name, spec, nm=2, index=True, extra=True, shock=True, vol=True, programs=(pa, pb),
-                      choice_steps=set([0, 1, 2, 98, 99, 100, 101, 102, 198, 199, 200, 201, 202]))
+                      choice_steps=set(act) | set([2]))
     return sc
 
 
@@ -116,6 +120,7 @@ def on_exc(w):
 def all_scenarios():
     sc = scenarios("thorough")
     sc.update(boundary_scenarios())
+    sc.update(boundary_scenarios(wide=True))
     return sc
 
 
@@ -125,7 +130,7 @@ def run(tier, seed):
     deep = {k: v for k, v in scenarios(tier).items() if k in ("chunk3:b", "sess:3s:c", "one_market")}
     run_r("C06", tier, seed, deep, [acc_C06], 2 if tier == "quick" else 3, on_exc, [], RULE, res=res, label="session_lists_deeper")
     # boundary runs: deviations are restricted to the choice points of the active steps by construction
-    run_r("C06", tier, seed, boundary_scenarios(), [acc_C06], 1 if tier == "quick" else 2, on_exc, WIT, RULE, res=res, label="chunk_boundaries_205_steps")
+    run_r("C06", tier, seed, boundary_scenarios(wide=(tier != "quick")), [acc_C06], 1, on_exc, WIT, RULE, res=res, label="chunk_boundaries_205_steps")
     # market-level half on Engine M: T-heavy histories on one Market, incl. storage chunk lowered to 4
     from ._m import ALPH
     from ..explore_m import run_m_check
